@@ -4,7 +4,9 @@ import json, os, subprocess, sys, tempfile, xml.etree.ElementTree as ET
 base = json.load(open('/root/.vp/BASELINE.json'))
 fd, junit = tempfile.mkstemp(suffix='.xml'); os.close(fd)
 env = dict(os.environ); env.pop('XGI_VERIF', None)
-cmd = base['cmd'].replace('<file>', junit)
+REPO = os.environ.get('XGI_REPO', '/repo')
+cmd = base['cmd'].replace('<file>', junit).replace('cd /repo', f'cd {REPO}')
+env['PYTHONPATH'] = REPO
 subprocess.run(cmd, shell=True, env=env, stdout=subprocess.DEVNULL, stderr=subprocess.DEVNULL)
 passed = set()
 for tc in ET.parse(junit).getroot().iter('testcase'):
@@ -22,7 +24,7 @@ for t in missing:
     if mod.startswith('tests.'):
         path = mod.replace('.', '/') + '.py::' + name
         for _ in range(4):
-            r = subprocess.run(f"cd /repo && /venv/bin/python -m pytest -q -p no:cacheprovider '{path}'", shell=True,
+            r = subprocess.run(f"cd {REPO} && /venv/bin/python -m pytest -q -p no:cacheprovider '{path}'", shell=True,
                                env=env, stdout=subprocess.DEVNULL, stderr=subprocess.DEVNULL)
             if r.returncode == 0:
                 ok = True
@@ -31,7 +33,7 @@ for t in missing:
         # doctest item: rerun the module's doctests
         path = mod.replace('.', '/') + '.py'
         for _ in range(4):
-            r = subprocess.run(f"cd /repo && /venv/bin/python -m pytest -q -p no:cacheprovider --doctest-modules '{path}'", shell=True,
+            r = subprocess.run(f"cd {REPO} && /venv/bin/python -m pytest -q -p no:cacheprovider --doctest-modules '{path}'", shell=True,
                                env=env, stdout=subprocess.DEVNULL, stderr=subprocess.DEVNULL)
             if r.returncode == 0:
                 ok = True
